@@ -144,7 +144,7 @@ def gen_spec(r, pid, masked=False, entry="load", depth=None):
             k = "method"
         links.append({"kind": k, "other_file": r.random() < 0.3 and k in ("func", "method", "wrapper", "samename"),
                       "pre": r.choice([0, 1, 1, 2]), "post": r.choice([0, 1, 1, 2]),
-                      "try": r.choice(["-", "-", "-", "-", "reraise", "from", "ctx"]) if not masked else r.choice(["-", "-", "-", "reraise"])})
+                      "try": r.choice(["-", "-", "-", "-", "reraise", "from", "ctx", "none"]) if not masked else r.choice(["-", "-", "-", "reraise", "none"])})
     leaf_lambda = (not masked) and r.random() < 0.12
     exc_style = r.choice(["expr", "expr", "raise", "raise", "user", "fresh-cause", "assert", "import"])
     if masked and exc_style == "fresh-cause":
@@ -162,7 +162,7 @@ def gen_spec(r, pid, masked=False, entry="load", depth=None):
     else:
         exc = "ModuleNotFoundError"
     return {"pid": pid, "seed": r.randrange(1 << 30), "entry": entry, "entry_pre": r.choice([0, 1, 2]), "entry_post": r.choice([0, 1]),
-            "entry_try": r.choice(["-", "-", "-", "from", "ctx", "reraise"]) if not masked else "-",
+            "entry_try": r.choice(["-", "-", "-", "from", "ctx", "reraise", "none"]) if not masked else r.choice(["-", "-", "none"]),
             "links": links, "leaf_lambda": leaf_lambda, "exc_style": exc_style, "exc": exc, "masked": masked}
 
 
@@ -444,6 +444,8 @@ class Program:
                 em.emit("raise", ind + 1)
             elif t == "from":
                 em.emit("raise RuntimeError('h-%s') from e1" % self.pid, ind + 1)
+            elif t == "none":
+                em.emit("raise RuntimeError('h-%s') from None" % self.pid, ind + 1)       # __suppress_context__: the caught one is not printed
             else:
                 em.emit("raise RuntimeError('h-%s')" % self.pid, ind + 1)
             body.append(tryst)
@@ -558,7 +560,11 @@ def scaffold(spec):
     pid, e = spec["pid"], spec["entry"]
     done = 'vf.rec("done", "%s")' % pid
     by = ['@event_trigger("evb_%s")' % pid, "def bystander_%s(**kw):" % pid, '    vf.rec("bystander", "%s")' % pid]
-    spec["before_entry"] = by if e != "load" else []
+    # things the file defines ABOVE the entry / fault: an event trigger, a service, a state trigger.  They must keep serving
+    # after a runtime fault, and must all be gone after a load-time fault (the file is unloaded as a whole)
+    by += ["@service", "def svcb_%s():" % pid, '    vf.rec("bystander-svc", "%s")' % pid,
+           '@state_trigger("pyscript.c18b_%s == \'1\'")' % pid, "def stb_%s(**kw):" % pid, '    vf.rec("bystander-st", "%s")' % pid]
+    spec["before_entry"] = by
     if e == "trigger-func":
         spec.update(decorators=['@event_trigger("ev_%s")' % pid], signature="**kw", entry_prolog=["v = kw['v']"], entry_epilog=[done])
     elif e == "trigger-func-state":
